@@ -28,6 +28,8 @@ def _match(spec, uid):
         return True
     if spec == 'none':
         return False
+    if spec in ('isint', 'isfloat', 'isbool'):
+        return isinstance(uid, tuple) and len(uid) == 2 and uid[0] == 'NUM' and uid[1] == spec[2:]
     if isinstance(spec, (list, tuple)):
         return isinstance(uid, tuple) and len(uid) == 3 and uid[0] == 'PKT' and uid[2] == spec[1]
     if isinstance(uid, tuple) and len(uid) == 3 and uid[0] == 'PKT':
@@ -234,7 +236,7 @@ def check(w):
 def _satisfiable(kind, c, level, items, cap):
     if kind == 'Container':
         if c['kind'] == 'put':
-            return cap - level >= c['args']
+            return level + c['args'] <= cap      # what would be stored must not exceed the capacity
         return level >= c['args']
     if c['kind'] == 'put':
         return len(items) < cap
